@@ -282,7 +282,7 @@ class CallMixin:
         exits = [s for (_, s) in fr.returns]
         rets = [v for (v, _) in fr.returns]
         if out.reachable:
-            rets.append(t("None", const=None))
+            rets.append(t("None", const=None).with_deps(out.xctrl))
             exits.append(out)
         may_return = bool(rets)
         if fi.is_generator:
@@ -319,12 +319,15 @@ class CallMixin:
         elif args or kwargs:
             if not any(b for b in ci.ext_bases if "Exception" in b or "Error" in b):
                 self.unresolved(frame, st, n, "constructor arguments without __init__: %s" % cls_q)
+        tag = getattr(self, "ctor_tags", {}).get(cls_q)
+        if tag is not None:
+            argdeps = argdeps | {tag}
         return replace(obj, deps=argdeps)
 
     # -------------------------------------------------------------- lambdas
     def call_lambda(self, fn, args, kwargs, n, st, frame) -> AV:
         _, node, def_frame, envref = fn
-        sub = State(dict(envref.env), st.facts, st.ctrl)
+        sub = State(dict(envref.env), st.facts, st.ctrl, True, st.xctrl)
         a = node.args
         for p, v in zip(a.args, args):
             sub.env[p.arg] = v
